@@ -17,7 +17,7 @@ static const char *mod_name[M__N] = {
 };
 static uint64_t g_sqrt_refused_qr = 0;	/* bn_mod_sqrt said "no root"/error although a root exists (loud, not a violation) */
 
-static void
+static NOINLINE void
 exec_mod(int op, const R *a, size_t ca, const R *b, const R *m, size_t cm, uint8_t fill, res_t *o) {
 	bn_p X = slot[0], Y = slot[1], M = slot[3];
 	static bn_mod_rd_data_t rd;
@@ -25,6 +25,7 @@ exec_mod(int op, const R *a, size_t ca, const R *b, const R *m, size_t cm, uint8
 
 	memset(o, 0, sizeof(*o));
 	memset(&rd, 0, sizeof(rd));
+	g_cur_a = a; g_cur_b = b; g_cur_k = ca;
 	bn_make(X, a, ca, fill);
 	bn_make(Y, b, cb, fill);
 	bn_make(M, m, cm, fill);
@@ -250,14 +251,17 @@ run_mod_op(int op, const vset_t *mods, const vset_t *abase, const vset_t *bset, 
 					CALL_COUNT();
 					if (exhaustive8 && two_operand) {	/* stale fill alternates instead of running both */
 						g_fill = ((i ^ j) & 1) ? 0x00 : 0xA5;
+						paint_stack(g_fill);
 						exec_mod(op, &as[i], ca, &bs[j], &m, cm, g_fill, &r1);
 						check_mod(op, &as[i], ca, &bs[j], &m, cm, &r1);
 						continue;
 					}
 					g_fill = 0xA5;
+					paint_stack(0xA5);
 					exec_mod(op, &as[i], ca, &bs[j], &m, cm, 0xA5, &r1);
 					check_mod(op, &as[i], ca, &bs[j], &m, cm, &r1);
 					g_fill = 0x00;
+					paint_stack(0x00);
 					exec_mod(op, &as[i], ca, &bs[j], &m, cm, 0x00, &r2);
 					if (!res_same(&r1, &r2))
 						vh_fail("stale-storage", "a=0x%s (cap %zu) b=0x%s m=0x%s: fill 0xA5 -> rc=%d v=0x%s; fill 0x00 -> rc=%d v=0x%s",
